@@ -154,7 +154,9 @@ def run(tier: str, seed: int) -> int:
     jobs = []
     plan = []
     for kind, cat in CATS:
-        n, maxps, stride, ns, which = (2, 2, 7, 16, range(0, 3)) if quick else (3, 3, 1, 64, None)
+        # thorough: every fourth of the 64 hash shards of the initial frames (which quarter depends on the seed) - all 64 take > 4 h
+        # of TLC plus replay on 16 cores since the model has stepped slices; each shard is explored exhaustively
+        n, maxps, stride, ns, which = (2, 2, 7, 16, range(0, 3)) if quick else (3, 3, 1, 64, range(seed % 4, 64, 4))
         if quick and kind in ("ring", "multipoint", "multiline"):
             which = range(0, 1)
         js = shard_jobs("MC_GeoFrame", dict(constants=dict(Kind=kind, Elems="<- " + cat, MaxOps=4, N=n, MaxPS=maxps, KeyStride=stride,
@@ -197,7 +199,7 @@ def run(tier: str, seed: int) -> int:
     if bad and len(chk.violations) + sum(chk.known_hits.values()) == before:
         raise MachineryError("MC_GeoFrame: CxExact violated but the code agrees with the P-level meaning on every replayed state: "
                              "the model of the mechanism mis-describes the code\n" + chk.notes["design_counterexample"])
-    chk.exhaustive = True
+    chk.exhaustive = False      # shards of the initial frames are sampled in both tiers (each shard exhaustively)
     # code -> spec
     recs = []
     for a in range(40 if quick else 800):
